@@ -16,6 +16,8 @@ From OV Require Import Model.TreeDef Model.TreeHeap Model.TreeHeapBase Model.Tre
   Model.TreeHeapGrow Model.TreeHeapOps Model.TreeHeapPop Model.TreeHeapSpec Model.TreeHeapFinal Gen.TreeArity
   Model.TreeOpsDescr Model.TreeOpsModel Model.TreePopDescr Model.TreePopModel Model.TreeGrowDescr Model.TreeGrowModel
   Gen.TreeOps.
+From OV Require Model.TreeAlgo Model.TreeAlgoDescr Gen.TreeAlgoDescr.
+From OV Require Import Model.TreeHeapAlgoLink.
 Import ListNotations.
 
 (* every entry of the regenerated N_ARGS_FUNCTION is 1 or 2 *)
@@ -213,3 +215,52 @@ Proof. exact prune_is_descr. Qed.
 Theorem C08_grow_is_source : forall E d ds st,
   run_grow E (Nat.eqb d 0) (grow E (pred d)) grow_src 3 ds st = grow E d ds st.
 Proof. exact grow_is_descr. Qed.
+
+(* ---- what the operators call in core/node.py: [pre_order] (read by deepcopy and find_node), [find_node] (_mutate,
+   _cross) and [n_nodes] (_mutation, _crossover) of the heap model are, on every well-formed heap tree, the
+   interpretation of the descriptions REGENERATED from node.py (translate/t_treealgo.py -> Gen/TreeAlgoDescr.v, the
+   file C11 is about); the parent / flag fields the interpreter reads are the stored ones ([hpar st], [hflg st]).
+   Proofs and the exact result maps: Model/TreeHeapAlgoLink.v. *)
+Theorem C08_descr_pre_order_regenerated :
+  OV.Gen.TreeAlgoDescr.pre_order_descr = Some OV.Model.TreeAlgoDescr.descr_pre.
+Proof. reflexivity. Qed.
+
+Theorem C08_descr_find_node_regenerated :
+  OV.Gen.TreeAlgoDescr.find_node_descr = Some OV.Model.TreeAlgoDescr.descr_find.
+Proof. reflexivity. Qed.
+
+Theorem C08_descr_properties_regenerated :
+  OV.Gen.TreeAlgoDescr.properties_descr = Some OV.Model.TreeAlgoDescr.descr_props.
+Proof. reflexivity. Qed.
+
+Theorem C08_pre_order_in_operators_is_node_py : forall dp,
+  OV.Gen.TreeAlgoDescr.pre_order_descr = Some dp ->
+  forall st t, WFt arity_tab st t ->
+  pre_order st (tid t) = res_of_ids (OV.Model.TreeAlgoDescr.interp_pre dp t).
+Proof. exact (pre_order_WFt_is_descr arity_tab _ C08_descr_pre_order_regenerated). Qed.
+
+Theorem C08_find_node_in_operators_is_node_py : forall dp df,
+  OV.Gen.TreeAlgoDescr.pre_order_descr = Some dp -> OV.Gen.TreeAlgoDescr.find_node_descr = Some df ->
+  forall dq st t p, WFt arity_tab st t ->
+  find_node st (tid t) p =
+  res_of_fn (OV.Model.TreeAlgoDescr.interp_find dp dq df (hpar st) (hflg st) t p).
+Proof.
+  exact (find_node_WFt_is_descr arity_tab _ _ C08_descr_pre_order_regenerated C08_descr_find_node_regenerated).
+Qed.
+
+Theorem C08_n_nodes_in_operators_is_node_py : forall d,
+  OV.Gen.TreeAlgoDescr.properties_descr = Some d ->
+  forall st t, WFt arity_tab st t ->
+  n_nodes st (tid t) = res_of_zcount (OV.Model.TreeAlgoDescr.interp_props d t).
+Proof. exact (n_nodes_WFt_is_descr arity_tab _ C08_descr_properties_regenerated). Qed.
+
+(* the population invariant gives the hypothesis for every tree the loops hand to n_nodes / _mutate / _cross *)
+Theorem C08_inv_trees_are_represented : forall nt funs d0 n P, Inv (gp_env nt funs d0) n P ->
+  forall i r, nth_error (p_trees P) i = Some r -> exists t, tid t = r /\ WFt arity_tab (p_heap P) t.
+Proof.
+  intros nt funs d0 n P HI i r Hr.
+  destruct (C08_inv_meaning nt funs d0 n P HI) as (_ & tb & ts & _ & _ & HF & _).
+  revert i Hr. induction HF as [| r0 t0 rs ts0 [E W] HF IH]; intros [|i] Hr; simpl in Hr; try discriminate.
+  - inversion Hr; subst. eauto.
+  - eauto.
+Qed.
